@@ -150,7 +150,7 @@ func Run(c *hx.Ctx) error {
 				avoid := ps.rng.Chance(80)
 				q := g.genQuery(avoid)
 				want := ps.up.query(q)
-				for tries := 0; tries < 6 && ((avoid && (want.err != "" || dupSignatureOverRange(ps, q, nil) || dupSignature(ps, q, nil, true))) || hasTopkTie(ps, q)); tries++ {
+				for tries := 0; tries < 6 && ((avoid && (want.err != "" || dupSignatureOverRange(ps, q, nil) || dupSignatureX(ps, q, nil, true, false))) || hasTopkTie(ps, q)); tries++ {
 					q = g.genQuery(avoid)
 					want = ps.up.query(q)
 				}
